@@ -256,6 +256,16 @@ func execBuild(toks []string) string {
 //	v  a vendor id is passed with flags that lack the V bit (NewAVP sets it)
 //	d  the AVP is created around a value of another size and its Data field assigned afterwards
 func reassemble(a *diam.AVP, mode string) *diam.AVP {
+	if strings.Contains(mode, "t") {
+		if _, ok := a.Data.(*diam.GroupedAVP); ok {
+			return reassembleTopDown(a)
+		}
+	}
+	if strings.Contains(mode, "r") {
+		if g, ok := a.Data.(*diam.GroupedAVP); ok && len(g.AVP) > 0 {
+			return reassembleReplace(a)
+		}
+	}
 	fl := a.Flags
 	if strings.Contains(mode, "v") && a.VendorID != 0 {
 		fl &^= 0x80
@@ -281,6 +291,72 @@ func reassemble(a *diam.AVP, mode string) *diam.AVP {
 		return a2
 	}
 	return diam.NewAVP(a.Code, fl, a.VendorID, a.Data)
+}
+
+// reassembleTopDown (mode t): the outer AVP is made first, around groups that only hold the
+// (still empty) shells of their grouped members; its length is asked for; the inner groups are
+// completed afterwards, outermost first. Whatever anybody remembered about a size on the way is
+// out of date by the time the tree is complete.
+func reassembleTopDown(a *diam.AVP) *diam.AVP {
+	g := a.Data.(*diam.GroupedAVP)
+	g2 := &diam.GroupedAVP{}
+	a2 := diam.NewAVP(a.Code, a.Flags, a.VendorID, g2)
+	type pending struct {
+		shell *diam.AVP
+		orig  *diam.AVP
+	}
+	var todo []pending
+	for _, c := range g.AVP {
+		if _, ok := c.Data.(*diam.GroupedAVP); ok {
+			sh := diam.NewAVP(c.Code, c.Flags, c.VendorID, &diam.GroupedAVP{})
+			g2.AddAVP(sh)
+			todo = append(todo, pending{sh, c})
+		} else {
+			g2.AddAVP(diam.NewAVP(c.Code, c.Flags, c.VendorID, c.Data))
+		}
+	}
+	_ = a2.Len()
+	for _, p := range todo {
+		fillTopDown(a2, p.shell, p.orig)
+	}
+	return a2
+}
+
+func fillTopDown(root, shell, orig *diam.AVP) {
+	g := orig.Data.(*diam.GroupedAVP)
+	sg := shell.Data.(*diam.GroupedAVP)
+	var todo [][2]*diam.AVP
+	for _, c := range g.AVP {
+		if _, ok := c.Data.(*diam.GroupedAVP); ok {
+			sh := diam.NewAVP(c.Code, c.Flags, c.VendorID, &diam.GroupedAVP{})
+			sg.AddAVP(sh)
+			todo = append(todo, [2]*diam.AVP{sh, c})
+		} else {
+			sg.AddAVP(diam.NewAVP(c.Code, c.Flags, c.VendorID, c.Data))
+		}
+		_ = root.Len()
+	}
+	for _, p := range todo {
+		fillTopDown(root, p[0], p[1])
+	}
+}
+
+// reassembleReplace (mode r): the group is built and wrapped with a placeholder of another size
+// in the place of its last member, its length is asked for, and the member is put in afterwards
+func reassembleReplace(a *diam.AVP) *diam.AVP {
+	g := a.Data.(*diam.GroupedAVP)
+	g2 := &diam.GroupedAVP{}
+	for i, c := range g.AVP {
+		if i == len(g.AVP)-1 {
+			g2.AVP = append(g2.AVP, diam.NewAVP(c.Code, 0, 0, datatype.OctetString("a placeholder that is longer than most of the members are")))
+		} else {
+			g2.AVP = append(g2.AVP, reassemble(c, "r"))
+		}
+	}
+	a2 := diam.NewAVP(a.Code, a.Flags, a.VendorID, g2)
+	_ = a2.Len()
+	g2.AVP[len(g2.AVP)-1] = reassemble(g.AVP[len(g.AVP)-1], "r")
+	return a2
 }
 
 // ---- answer (C16): request read from a multistream reader so that it carries a stream
@@ -1142,7 +1218,7 @@ func genCodec(r *RNG, n int, which string, emit func(string)) {
 		case "build":
 			line := genMessage(r).buildLine()
 			if r.Chance(40) {
-				line += " asm=" + []string{"g", "v", "d", "gv", "gd", "gvd"}[r.Intn(6)]
+				line += " asm=" + []string{"g", "v", "d", "gv", "gd", "gvd", "t", "r", "tv", "rd"}[r.Intn(10)]
 			}
 			emit(line)
 		case "decode":
